@@ -70,6 +70,10 @@ def run(ck, tier, seed):
             key = f"v:{r['first']}|{r['second']}|{r['arg']}|conv{r['conv']}"
             what = (f"overloads ov({r['first']})" + (f", ov({r['second']})" if r["second"] else "") + f" in an engine {'with' if r['conv'] else 'WITHOUT'} vector_conversion<std::vector<int>>, called with the "
                     f"{r['arg']} argument: entered {r['entered'] or 'nothing'} {r['n']} time(s), received {r['recv']!r}, outcome {r['oc']}")
+        elif r["k"] == "w":
+            key = f"w:{r['first']}|{r['second']}|{r['arg']}|conv{r['conv']}"
+            what = (f"overloads ov({r['first']})" + (f", ov({r['second']})" if r["second"] else "") + f" in an engine {'with' if r['conv'] else 'WITHOUT'} map_conversion<std::map<std::string, int>>, called with the "
+                    f"{r['arg']} argument: entered {r['entered'] or 'nothing'} {r['n']} time(s), received {r['recv']!r}, outcome {r['oc']}")
         elif r["k"] == "x":
             key = f"x:{r['case']}"
             what = f"case {r['case']}: overloads entered in sequence {r['seq']!r} ({r['n']} entries), outcome {r['oc']}"
@@ -87,6 +91,6 @@ def run(ck, tier, seed):
     if drift:
         ck.notes.append(f"{drift} recorded calls chose a different (still allowed) overload than the transcription of dispatch() predicts: the code path changed, the property did not fail")
     ck.rule = ("every ordered pair (and singleton) of 18 unary and 12 binary signatures x 18 (8) argument kinds, arity errors, boxed_cast of every argument "
-               "kind to 13 requested forms, two data-member accessors x 12 receivers x 4 routes (call, dot, function value, bind), and 7 forms of a parameter reached through a user type_conversion (alone, beside an overload of the argument's own type, beside a catch-all, both registration orders) x 7 arguments x conversion registered or not, and std::vector<int> parameters reached through vector_conversion x 9 script arguments (int elements, empty, mixed, doubles, longs, nested, non-vectors); distinct = (row kind, entered overload, argument kind)")
-    ck.assumptions += ["signature catalogue and argument kinds are those of harness/vd_dispatch.cpp; map conversions and std::function wrappers are not in it yet"]
+               "kind to 13 requested forms, two data-member accessors x 12 receivers x 4 routes (call, dot, function value, bind), and 7 forms of a parameter reached through a user type_conversion (alone, beside an overload of the argument's own type, beside a catch-all, both registration orders) x 7 arguments x conversion registered or not, and std::vector<int> parameters reached through vector_conversion x 9 script arguments (int elements, empty, mixed, doubles, longs, nested, non-vectors), likewise std::map<std::string, int> parameters through map_conversion; distinct = (row kind, entered overload, argument kind)")
+    ck.assumptions += ["signature catalogue and argument kinds are those of harness/vd_dispatch.cpp; std::function wrappers are not in it yet (beyond the recorded callback case)"]
     lib.rm(work)
